@@ -3,6 +3,7 @@
 package lexm
 
 import (
+	"github.com/z7zmey/php-parser/internal/verifhook"
 	"strings"
 
 	"github.com/z7zmey/php-parser/internal/scanner"
@@ -255,9 +256,17 @@ func TokName(id token.ID) string {
 
 // Scan runs the real scanner; ok=false if it panicked or did not stop.
 func Scan(src []byte, v *version.Version) (names []string, toks []*token.Token, ok bool) {
+	steps, budget := 0, 64+16*len(src)
+	verifhook.Tick = func() {
+		steps++
+		if steps > budget {
+			panic("scanner step budget exceeded")
+		}
+	}
 	defer func() {
+		verifhook.Tick = nil
 		if r := recover(); r != nil {
-			ok = false
+			names, toks, ok = nil, nil, false
 		}
 	}()
 	l := scanner.NewLexer(src, conf.Config{Version: v})
